@@ -108,10 +108,7 @@ func foundSyllableMyanmar(syllableType uint8, ts, te int, info []GlyphInfo, syll
 
 func setupSyllablesMyanmar(_ *otShapePlan, _ *Font, buffer *Buffer) bool {
 	findSyllablesMyanmar(buffer)
-	iter, count := buffer.syllableIterator()
-	for start, end := iter.next(); start < count; start, end = iter.next() {
-		buffer.unsafeToBreak(start, end)
-	}
+	syllabicUnsafeToBreak(buffer)
 	return false
 }
 
